@@ -308,7 +308,7 @@ def gen_union(rng, b, lgs):
     for pi, perm in enumerate(perms):
         u = b.reg(); b.ops.append([10, u, lgu, 9001])
         for j, idx in enumerate(perm):
-            b.ops.append([11, u, ins[idx][0]])
+            b.ops.append([rng.choice([11, 11, 13]), u, ins[idx][0]])
             if pi == 0 and rng.random() < 0.4:
                 rr = b.reg(); b.ops.append([12, u, rr]); b.ops.append([5, rr])
         res = b.reg(); b.ops.append([12, u, res]); b.ops.append([5, res]); b.ops.append([7, res])
